@@ -17,6 +17,7 @@ LEVEL_TEXT = ("Theorems about a hand-written model of the process-global state (
               "from the source with file:line, re-derived by an AST scan on every run and diffed) shows each closure reads only what the key distinguishes; the per-call primitive dispatch list is a "
               "function of the current model only (after the fix: commit; the accumulating variant is a machine-checked history-dependence witness). On the real code: sequences of different "
               "models/options run in one process vs each alone in a fresh process.")
+TECHNIQUE = ('Lean 4 theorems over a hand-written model of the process-global state and the kernel-builder cache (Model/ProcState.lean) with a builder table re-derived from the source by an AST scan on every run; differential: model sequences in one process vs fresh processes')
 LEVEL_NOTE = "C36_partial: the builder table is data transcribed from the source (cross-checked by the AST scan each run); other module-level mutable state is searched for by that scan. Trusted: Lean kernel."
 ASSUMPTIONS = ["results compared bitwise between the in-process sequence and fresh subprocesses on the same machine"]
 VERIF = os.path.abspath(os.path.join(os.path.dirname(__file__), "..", ".."))
